@@ -112,6 +112,32 @@ fn ancestors(path: &str) -> Vec<String> {
     out
 }
 
+/// Reference for PathSelector::matches_full_path: a pattern that does not start with `/` or `**`
+/// is anchored at the base directory, whose name is literal text (README: relative patterns are
+/// relative to the working directory). None when the reference matcher does not cover a pattern.
+fn ref_selected(c: &PruneCase) -> Option<bool> {
+    let abs = |g: &String| -> String {
+        if g.starts_with('/') || g.starts_with("**") {
+            g.clone()
+        } else {
+            format!("{}/{}", crate::ded::escape_glob(&c.base_dir), g)
+        }
+    };
+    let mut inc_any = c.include.is_empty();
+    for g in &c.include {
+        if crate::glob::ref_match(&abs(g), &c.path, c.ci)? {
+            inc_any = true;
+        }
+    }
+    let mut exc_any = false;
+    for g in &c.exclude {
+        if crate::glob::ref_match(&abs(g), &c.path, c.ci)? {
+            exc_any = true;
+        }
+    }
+    Some(inc_any && !exc_any)
+}
+
 pub fn run_prune(c: &PruneCase, _n: u64) -> Verdict {
     let cc = c.clone();
     let r = catch_unwind(move || {
@@ -131,6 +157,18 @@ pub fn run_prune(c: &PruneCase, _n: u64) -> Verdict {
         }
         Some((true, None))
     });
+    if let (Ok(Some((got, _))), Some(want)) = (&r, ref_selected(c)) {
+        if *got != want {
+            return Verdict::Fail {
+                clause: "selection-differs-from-reference".into(),
+                detail: format!(
+                    "base dir {:?}, include {:?}, exclude {:?}{}: path {:?} is {} by PathSelector::matches_full_path but {} by the reference (relative patterns anchored at the literal base dir)",
+                    c.base_dir, c.include, c.exclude, if c.ci { " (ignore case)" } else { "" }, c.path, if *got { "selected" } else { "not selected" }, if want { "selected" } else { "not selected" }
+                ),
+                sig: vec![],
+            };
+        }
+    }
     match r {
         Err(_) => Verdict::fail("selector-panics", format!("{:?}", c)),
         Ok(None) => Verdict::Discard("pattern-rejected".into()),
@@ -219,7 +257,8 @@ fn rel_path_strategy() -> impl Strategy<Value = String> {
     proptest::collection::vec((0u16..u16::MAX).prop_map(|i| COMPONENTS[pick(i, COMPONENTS.len())]), 1..=4).prop_map(|v| v.join("/"))
 }
 
-const BASE_DIRS: [&str; 8] = ["/t", "/t/a.b", "/t/v-1", "/t/ż", "/t/a+b", "/t/(x)", "/t/A", "/t/a$"];
+const BASE_DIRS: [&str; 14] =
+    ["/t", "/t/a.b", "/t/v-1", "/t/ż", "/t/a+b", "/t/(x)", "/t/A", "/t/a$", "/t/[1]", "/t/{a,b}", "/t/+(x)", "/t/a*", "/t/q?", "/t/@(a|b)"];
 
 fn prune_strategy() -> impl Strategy<Value = PruneCase> {
     // patterns are built from a directory prefix of the path itself (so that selection is likely),
@@ -376,7 +415,7 @@ pub fn check(tier: Tier) -> i32 {
 
     ctx.finish(
         "exploration",
-        "clause 1: bounded-exhaustive - every glob of <=3 (quick) / <=4 (thorough) tokens over the 19-token alphabet (literals a b . - + ( ż \\*, ?, *, **, /, [ab], [!a], {a,b*}, @(a|b), ?(a|b), +(a|b), *(a|b)) against all 2800 paths of <=4 components over {a,b,ab,a.b,-,ż,A}, case-sensitive and ignore-case, fclones' Pattern::glob vs the harness' reference matcher written from README 'Path Globbing'; random globs of up to 7 tokens. clause 2: random PathSelector configurations (include/exclude globs derived from the path with wildcard substitutions, absolute or relative to base directories containing . - + ( ) $ ż) - whenever the selector selects a full path every proper ancestor directory must pass matches_dir. Non-trivial (1) = glob has a wildcard token and a metacharacter/non-ASCII literal; (2) = selected path with >=3 ancestors. Distinct by construction for the enumeration, by digest for random cases.",
+        "clause 1: bounded-exhaustive - every glob of <=3 (quick) / <=4 (thorough) tokens over the 19-token alphabet (literals a b . - + ( ż \\*, ?, *, **, /, [ab], [!a], {a,b*}, @(a|b), ?(a|b), +(a|b), *(a|b)) against all 2800 paths of <=4 components over {a,b,ab,a.b,-,ż,A}, case-sensitive and ignore-case, fclones' Pattern::glob vs the harness' reference matcher written from README 'Path Globbing'; random globs of up to 7 tokens. clause 2: random PathSelector configurations (include/exclude globs derived from the path with wildcard substitutions, absolute or relative to base directories whose names contain . - + ( ) $ ż or glob syntax such as [1], {a,b}, +(x), a*, q?, @(a|b)) - (a) matches_full_path must agree with the reference matcher, a relative pattern being anchored at the base directory taken literally; (b) whenever the selector selects a full path every proper ancestor directory must pass matches_dir. Non-trivial (1) = glob has a wildcard token and a metacharacter/non-ASCII literal; (2) = selected path with >=3 ancestors. Distinct by construction for the enumeration, by digest for random cases.",
         &["!( ) is outside the statement and not generated", "globs the reference grammar cannot parse (e.g. an unbalanced '?(' produced by token concatenation) are skipped and counted"],
     )
 }
